@@ -154,7 +154,7 @@ class Multiline:
           "Inconsistent values for header tag {} found\n".format(tagname)+
           "Previous definition: {}\n".format(prev)+
           "Current definition: {}".format(value))
-    elif self.vlevel > 1 and datatype is not None and \
+    elif self.vlevel >= 1 and datatype is not None and \
         datatype != self.get_datatype(tagname):
       raise gfapy.InconsistencyError(
         "Datadatatype mismatch error for field {}:\n".format(tagname)+
